@@ -1,10 +1,10 @@
 (* C09 — Layout does not change meaning.  (keyword case and redundant parentheses; the whitespace clause is decided per case) *)
 Require Import Parser Printer.
-Require Lex.
+Require Lex LexProof LexCtx LexCtx2.
 Require Import ParserRoundTrip ParserParens.
-Require LexCase LexWs.
+Require LexCase LexWs LexWsG.
 Require Import Api.
-From Coq Require Import List String.
+From Coq Require Import List String NArith.
 Import ListNotations.
 
 (* the token type of a word (AND / OR / NOT / TO / literal) is the same for any two words that agree up to ASCII letter case *)
@@ -38,8 +38,40 @@ Proof.
   intros o cl Hws df s s' W A A'. unfold Api.parse, Api.lex_tokens. rewrite (LexWs.lex_ws cl Hws _ _ W A A'). reflexivity.
 Qed.
 
+
+(* whitespace, for EVERY input - any byte string, valid UTF-8 or not: LexWsG.wsvar_g is LexWs.wsvar with the dangling-escape
+   exclusion stated without reference to ASCII (the token is returned unchanged when a blank follows it). The decoder may look up
+   to three bytes past a token to find a truncated sequence not continued; whitespace bytes and the first byte of any proper token
+   are never continuation bytes, so the lookahead sees the same thing (Proofs/LexCtx.v, LexCtx2.v, LexWsG.v).
+   Oracle facts: the four whitespace runes are not letters or digits; U+FFFD (the decoder's answer to an invalid byte) is neither. *)
+Theorem C09_whitespace_same_tokens_any_bytes : forall cl : Lex.classes,
+  (forall r, Lex.is_space r = true -> Lex.is_alnum cl r = false) ->
+  Lex.is_letter cl 65533%N = false /\ Lex.is_digit cl 65533%N = false ->
+  forall s s' : Lex.bytes, LexWsG.wsvar_g cl s s' -> Lex.lex cl s' = Lex.lex cl s.
+Proof. exact LexWsG.lex_ws_g. Qed.
+
+Theorem C09_whitespace_same_parse_any_bytes : forall (o : oracle) (cl : Lex.classes),
+  (forall r, Lex.is_space r = true -> Lex.is_alnum cl r = false) ->
+  Lex.is_letter cl 65533%N = false /\ Lex.is_digit cl 65533%N = false ->
+  forall (df s s' : string), LexWsG.wsvar_g cl (list_ascii_of_string s) (list_ascii_of_string s') -> Api.parse o cl df s' = Api.parse o cl df s.
+Proof.
+  intros o cl Hws Hf df s s' W. unfold Api.parse, Api.lex_tokens. rewrite (LexWsG.lex_ws_g cl Hws Hf _ _ W). reflexivity.
+Qed.
+
+(* one call of Next() does not depend on what follows the token (any bytes): the context may be replaced by any other whose first
+   byte is not a continuation byte and whose first rune stops a word / is a digit exactly when the old one did *)
+Theorem C09_token_independent_of_what_follows : forall cl : Lex.classes,
+  (forall r, Lex.is_space r = true -> Lex.is_alnum cl r = false) ->
+  forall (t : Lex.token) (r r' : Lex.bytes), r <> [] ->
+  Lex.next_token cl (Lex.val t ++ r) = (t, r) -> LexProof.proper t -> LexCtx.hd_ok r' -> LexCtx2.look_ok cl r r' ->
+  Lex.next_token cl (Lex.val t ++ r') = (t, r').
+Proof. exact LexCtx2.next_token_ctx_g. Qed.
+
 Print Assumptions C09_keyword_case.
 Print Assumptions C09_whitespace_same_tokens.
 Print Assumptions C09_whitespace_same_parse.
 Print Assumptions C09_redundant_parentheses_same_parse.
 Print Assumptions C09_redundant_parentheses.
+Print Assumptions C09_whitespace_same_tokens_any_bytes.
+Print Assumptions C09_whitespace_same_parse_any_bytes.
+Print Assumptions C09_token_independent_of_what_follows.
